@@ -13,7 +13,7 @@ import (
 // ---- C14: Hosts matcher ---------------------------------------------------------------------------
 
 var hostLits = []string{"\u00e9cole.example.com", "\u043f\u0440\u0438\u043c\u0435\u0440.example.com", "api.example.com", "www.example.com", "a.example.com", "b.example.com", "c.example.com", "d.example.com", "e.example.com", "example.com", "x.org", "api.x.org"}
-var hostPats = []string{"{sub}.example.com", "{sub:[a-z]+}.example.com", "{n:\\d+}.example.com", "{sub:word}.example.com", "{a}.{b}.example.com", "{-ign}.x.org", "s.{zone}.example.com", "{w:digit}.x.org", "{any}"}
+var hostPats = []string{"{n:\\d+}.a.example.com", "{n:\\d+}.b.example.com", "{s:[a-z]+}.a.x.org", "{s:[a-z]+}.b.x.org", "{sub}.example.com", "{sub:[a-z]+}.example.com", "{n:\\d+}.example.com", "{sub:word}.example.com", "{a}.{b}.example.com", "{-ign}.x.org", "s.{zone}.example.com", "{w:digit}.x.org", "{any}"}
 
 func randCase(r *Rng, s string) string {
 	b := []byte(s)
